@@ -417,6 +417,47 @@ def check_wire(ctx, FB, exp):
     return n
 
 
+def check_sequence(ctx, FB, exp, rows):
+    """one long history per object kind: every typed setter is applied once (fresh tokens each), then every getter must
+    return the arguments of its own setter; afterwards dirty_reset + one more setter leaves exactly that field dirty.
+    Complements the per-accessor frame argument with an actual interleaving of all fields of a kind."""
+    F = FB["wow_world_messages"]
+    P = f"crate::helper::{exp}::update_mask::"
+    by_field = {f"{r['owner'].lower()}_{r['name'].lower()}": r for r in rows}
+    n = 0
+    for kind in KINDS:
+        ty = f"{P}Update{kind}"
+        impl = f"{P}impls::<impl {ty}>::"
+        fns = {p[len(impl):]: F.fn(p) for p in F.paths("fn") if p.startswith(impl)}
+        try:
+            m = Mini(FB, "wow_world_messages")
+            u = m.call_fn(ty + "::new", [])
+            ev = Env(FB)
+            applied = []
+            for sname, fn in sorted(fns.items()):
+                if not sname.startswith("set_") or sname[4:] not in fns:
+                    continue
+                row = by_field.get(sname[4:])
+                if row is None or row["kind"] in ("ArrayOfStruct", "GuidArrayUsingEnum"):
+                    continue
+                args = [ev.value(t) for t in fn["inputs"][1:]]
+                m.call_fn(fn["path"], [u] + args)
+                applied.append((sname[4:], args, row))
+            for field, args, row in applied:
+                n += 1
+                res = Mini(FB, "wow_world_messages").call_fn(fns[field]["path"], [u])
+                want = args[0] if len(args) == 1 else tuple(args)
+                if not (isinstance(res, tuple) and res[0] == "Some" and equalish(res[1], want)):
+                    # who overwrote it?
+                    lo, hi = row["offset"], row["offset"] + row["size"]
+                    culprits = [f for f, _a, r2 in applied if f != field and r2["offset"] < hi and lo < r2["offset"] + r2["size"]]
+                    ctx.violate("um.sequence", f"{exp}|{kind}|{field}", f"{exp} Update{kind}: after setting every typed field once, {field}() no longer returns the value given to set_{field} "
+                                f"({'overwritten by ' + ', '.join('set_' + c for c in culprits[:3]) if culprits else 'returns ' + show(res)})", fns[field]["file"], fns[field]["line"])
+        except (Unsupported, Panic) as e:
+            ctx.violate("um.sequence", f"{exp}|{kind}|shape", f"{exp} Update{kind}: sequence interpretation failed — review ({e})")
+    return n
+
+
 def check_read_inner(ctx, FB):
     """inners::read_inner over mask-block patterns (every single bit of a block, dense and sparse blocks, two blocks):
     header = the blocks, one value per set bit in ascending index made of exactly its four wire bytes, nothing else consumed"""
@@ -503,7 +544,7 @@ def run(ctx):
     FB = {c: facts(c) for c in ("wow_world_messages", "wow_world_base")}
     FP = facts("wow_message_parser")
     md = parse_md()
-    total_acc = total_int = wire = 0
+    total_acc = total_int = wire = seq = 0
     for exp, ver in EXPANSIONS.items():
         rows = parse_fields(FP, exp)
         if rows is None:
@@ -518,11 +559,13 @@ def run(ctx):
         total_acc += a
         total_int += i
         wire += check_wire(ctx, FB, exp)
+        seq += check_sequence(ctx, FB, exp, rows)
         ctx.sample({"expansion": exp, "table_rows": len(rows), "accessors": a, "setter_interpretations": i})
     ctx.rule("um.table3", sum(len(v) for v in md.values()), floor=860, note="rows of update-mask.md vs the generator's FIELDS tables (3 expansions), rows of one object kind disjoint")
     ctx.rule("um.accessors", total_acc, floor=3720, note=f"generated accessors; {total_int} setter/getter/builder interpretations on abstract arguments (every index value of indexed fields)")
     wire += check_read_inner(ctx, FB)
     ctx.rule("um.wire", wire, floor=21, note="new/set/write/read-back/size/dirty operations interpreted for 7 object kinds x 3 expansions + read_inner over 39 mask-block patterns (every single bit)")
+    ctx.rule("um.sequence", seq, floor=1100, note="getter results after a history that sets every simple typed field of a kind once (7 kinds x 3 expansions)")
     fn_n = check_funnel(ctx, FB["wow_world_messages"])
     ctx.rule("um.funnel", fn_n, floor=100, note="accesses to header/dirty_mask/values of the update mask types (who-may-write)")
     ctx.assume("histories: a getter returns the last value set for its field because every setter writes only inside its own table row, rows of one kind are disjoint, "
